@@ -255,7 +255,9 @@ func c16Level1(ctx context.Context, run *common.Run, obs *c16obs, idx int) {
 		default:
 			close(interrupt)
 		}
-		<-runDone
+		// do not wait for it: after an interrupt a Run that missed its completion signal sits in
+		// cancelAndWaitForComplete for up to ten minutes
+		waitOrState(runDone, 2*time.Second)
 		return
 	}
 	_ = handlerReturned
